@@ -191,8 +191,8 @@ def C10(tier, seed):
         for s_ in range(4):
             jobs.append({"name": f"pack_{s_}", "args": ["pack", "--seed", str(seed * 100 + s_), "--layouts", "@layouts@", "--sample", "60"]})
     else:
-        for s_ in range(8):
-            jobs.append({"name": f"pack_{s_}", "args": ["pack", "--seed", str(seed * 100 + s_), "--layouts", "@layouts@", "--sample", "100000"], "tlc_timeout": 7200})
+        for s_ in range(12):   # every layout exactly once, partitioned over 12 shards
+            jobs.append({"name": f"pack_{s_}", "args": ["pack", "--seed", str(seed * 100 + s_), "--layouts", "@layouts@", "--sample", "100000", "--part", f"{s_}/12"], "tlc_timeout": 7200})
     p = {"active": ["C10"], "drivers": jobs, "models": [mc("MC_Whirlpool", tier), COV], "gen": gen, "exhaustive": tier != "quick",
          "must_exercise": {"swap": 50, "swap_v2": 200},
          "explanation": "TLC enumerates all placements of <= 4 initialized ticks over boundary slots of the three arrays a swap uses x direction x start state (on tick / inside / shifted); each world is "
